@@ -4,7 +4,7 @@
 # against that copy (VERIF_REPO), prints their verdict lines and removes the copy.
 REV=""
 if [ "$1" = "-R" ]; then REV="-R"; shift; fi
-P="$1"; shift
+P="$1"; shift; case "$P" in commit:*) ;; /*) ;; *) P="$(pwd)/$P";; esac
 S="$(mktemp -d /tmp/s4mut.XXXXXX)"
 trap 'rm -rf "$S"' EXIT
 rsync -a --exclude target --exclude .git --exclude logs /repo/ "$S/"
